@@ -105,6 +105,15 @@ protected:
 
    /// clear and setup scaling arrays in the LP
    virtual void setup(SPxLPBase<R>& lp);
+public:
+   /// binds the scaler to the (existing) scaling arrays of a scaled LP without changing them, e.g. after copying LP and scaler
+   void bindToLP(SPxLPBase<R>& lp)
+   {
+      m_activeColscaleExp = &lp.LPColSetBase<R>::scaleExp;
+      m_activeRowscaleExp = &lp.LPRowSetBase<R>::scaleExp;
+      lp.lp_scaler = this;
+   }
+protected:
    ///@}
 
 public:
